@@ -1313,6 +1313,9 @@ enum Sc {
     ProgReadsLoopVar { macro_kind: usize },
     /// variables named like built-in functions / macros, bound from JSON and directly
     JsonCallableNames,
+    /// a function and a macro bound by the caller under one name, in either order: the
+    /// function wins in call position (free and receiver form)
+    FuncAndMacroBound { func_first: bool },
     /// a bound function shares its name with a stored program (`prog`) or a bound variable:
     /// in value position the name is the program / variable, in call position the function
     FuncSharesName { prog: bool },
@@ -1435,6 +1438,8 @@ fn scenarios(thorough: bool) -> Vec<Sc> {
         v.push(Sc::ProgReadsLoopVar { macro_kind: k });
     }
     v.push(Sc::JsonCallableNames);
+    v.push(Sc::FuncAndMacroBound { func_first: true });
+    v.push(Sc::FuncAndMacroBound { func_first: false });
     v.push(Sc::FuncSharesName { prog: true });
     v.push(Sc::FuncSharesName { prog: false });
     v.push(Sc::Rebind);
@@ -1745,6 +1750,31 @@ fn build12(sc: &Sc, seed: u64) -> WorldCase {
             }
             add(&mut ops, "main", format!("[{}]", names.join(", ")));
             expect(&mut ops, &mut r, "main", Want::Val(V::List(want)));
+        }
+        Sc::FuncAndMacroBound { func_first } => {
+            label = format!("call-function-before-caller-macro:{}", if *func_first { "function-bound-first" } else { "macro-bound-first" });
+            let n = *r.pick(&["pick", "choose", "q"]);
+            let f = Op { t: t_exec, k: OpK::BindFunc { b: 0, name: n.to_string(), ret: tag("func", n, uniq) } };
+            let mc = Op { t: t_exec, k: OpK::BindMacro { b: 0, name: n.to_string(), ret: tag("macro", n, uniq) } };
+            if *func_first {
+                ops.push(f);
+                ops.push(mc);
+            } else {
+                ops.push(mc);
+                ops.push(f);
+            }
+            // a macro of its own name is used when no function shares it
+            ops.push(Op { t: t_exec, k: OpK::BindMacro { b: 0, name: "onlymacro".into(), ret: tag("macro", "onlymacro", uniq) } });
+            bind(&mut ops, "x0", V::List(vec![V::Int(1), V::Int(2)]));
+            add(&mut ops, "free", format!("{}(x0)", n));
+            add(&mut ops, "method", format!("x0.{}(x0)", n));
+            add(&mut ops, "inbody", format!("x0.map(v, {}(v))", n));
+            add(&mut ops, "plainmacro", "onlymacro(x0)".to_string());
+            let t = tag("func", n, uniq);
+            expect(&mut ops, &mut r, "free", Want::Val(t.clone()));
+            expect(&mut ops, &mut r, "method", Want::Val(t.clone()));
+            expect(&mut ops, &mut r, "inbody", Want::Val(V::List(vec![t.clone(), t])));
+            expect(&mut ops, &mut r, "plainmacro", Want::Val(tag("macro", "onlymacro", uniq)));
         }
         Sc::FuncSharesName { prog } => {
             label = format!("function-shares-name-with-{}", if *prog { "program" } else { "variable" });
